@@ -25,6 +25,17 @@ SFC_FILE_TRUNCATE, SFC_GET_EMBED_FILE_INFO = "1080", "10b0"
 ERRNAMES = ("system", "badOffset", "noEmbedSupport", "noEmbeddedRdwr", "sd2Fd")
 
 
+MAX_PER_STREAM = 6
+
+
+def capped(ctx, stream, name, text, no_input=False):
+    """at most MAX_PER_STREAM VIOLATION lines per stream (all are counted in the evidence)"""
+    c = ctx.notes.setdefault("violations_per_stream", {})
+    c[stream] = c.get(stream, 0) + 1
+    if c[stream] <= MAX_PER_STREAM:
+        ctx.violation(name, text, no_input=no_input)
+
+
 def hexb(bs):
     return "".join("%02x" % b for b in bs)
 
@@ -174,7 +185,7 @@ def stream_shim(ctx, consts, n_free, n_groups):
         content = [rng.randrange(256) for _ in range(clen)]
         leads = [rng.choice([1, 2, 7]), 37, rng.choice([300, 4096])]
         emb = mode in ("r", "w")
-        ops = gen_ops(rng, mode, clen + trail, covered=True, embedded_read=(mode == "r"))
+        ops = gen_ops(rng, mode, clen + trail, covered=True, embedded_read=(mode == "r")) + ["c"]
         members = [("path", 0, 1), ("vio", 0, 1), ("fd", 0, 0), ("fd", 0, 1)]
         if emb:
             members += [("fd", l, rng.randrange(2)) for l in leads]
@@ -229,13 +240,19 @@ def stream_shim(ctx, consts, n_free, n_groups):
             fd_state, sent = (own.group(1), own.group(2)) if own else ("?", "?")
             obs = (mid, logical)
             ctx.count(1, tag="routes-agree-%s" % mode)
+            want_state = "-" if route == "vio" else "0" if route == "path" or cd else "1"
+            if fd_state != want_state:
+                found = True
+                capped(ctx, "shim-close", "shim-close-%s" % name, "# C14 close_desc_iff on the implementation: after psf_fclose the handle's descriptor is %s, expected %s (route %s, close_desc %d)\n# %s\n--- cases (run with: sfh routes)\n%s"
+                       % ({"0": "closed", "1": "open"}.get(fd_state, fd_state), {"0": "closed", "1": "open"}.get(want_state, want_state), route, cd, l, byname[name]))
+                break
             if ref is None:
                 ref = (name, obs)
             elif obs != ref[1] or not lead_ok or sent != "1":
                 found = True
                 what = "observations / logical content differ from route path" if obs != ref[1] else \
                        "bytes in front of fileoffset were modified" if not lead_ok else "a descriptor the shim did not open was closed"
-                ctx.violation("shim-routes-%s" % name,
+                capped(ctx, "shim", "shim-routes-%s" % name,
                               "# C14 routes_equivalent on the implementation: %s\n# covered operation sequence (no truncate, no negative target, no SEEK_END-free restriction needed), mode %s\n"
                               "# reference %s\n# this     %s\n--- cases (run with: sfh routes)\n%s\n%s"
                               % (what, mode, impl.get(ref[0], ""), l, byname[ref[0]], byname[name]))
@@ -244,7 +261,7 @@ def stream_shim(ctx, consts, n_free, n_groups):
         ctx.count(1, tag="pipe-agrees")
         if shim_mid(impl.get(a, "")) != shim_mid(impl.get(b, "")):
             found = True
-            ctx.violation("shim-pipe-%s" % b, "# C14 pipe_equivalent on the implementation: a sequential reader gets different results from a pipe\n# path %s\n# pipe %s\n--- cases (run with: sfh routes)\n%s\n%s"
+            capped(ctx, "shim-pipe", "shim-pipe-%s" % b, "# C14 pipe_equivalent on the implementation: a sequential reader gets different results from a pipe\n# path %s\n# pipe %s\n--- cases (run with: sfh routes)\n%s\n%s"
                           % (impl.get(a, ""), impl.get(b, ""), byname[a], byname[b]))
     ctx.notes["shim_cases"] = len(lines)
     ctx.notes["shim_model_mismatches"] = mism
@@ -423,7 +440,7 @@ def stream_public(ctx, consts, fmts, alive):
                 why = "descriptor state after sf_close: fcntl (F_GETFD) says open=%s, close_desc demands open=%s" % (fdo, want_fd)
             if why:
                 found = True
-                ctx.violation("write-%s-%s" % (j["name"], r.replace(":", "_")),
+                capped(ctx, "write", "write-%s-%s" % (j["name"], r.replace(":", "_")),
                               "# C14 written bytes / results must not depend on the route: %s, route %s: %s\n# vio : %s\n# here: %s\n--- script\n%s"
                               % (j["name"], r, why, " / ".join(refn)[:600], " / ".join(strip_route_noise(got[:-1]))[:600], sdict[key]))
         # ---- phase 2 scripts: read the vio-written file through every route
@@ -440,7 +457,7 @@ def stream_public(ctx, consts, fmts, alive):
     s2 = dict(scripts2)
 
     def viol(name, text, key):
-        ctx.violation(name, text + "\n--- script\n" + s2[key][:200000])
+        capped(ctx, name.split("-")[0], name, text + "\n--- script\n" + s2[key][:200000])
 
     for n, j in enumerate(jobs):
         if not j.get("filehex"):
@@ -525,6 +542,14 @@ def stream_gate(ctx, consts, jobs):
             lines.append("gate %s route=fd mode=%s cd=%d lead=%d trail=%d fmt=%08x clen=%d major=%x declared=%d au=%d content=%s"
                          % (name, mode, cd, lead, trail, f.word if (mode == "w" or f.major == 0x04) else 0, clen if mode != "w" else 0, f.major, clen, au, content))
             meta[name] = (j["name"], mode, lead, f.major)
+    # the 44-byte rule at its boundary: hand-made AU/u-law files, descriptor sizes 43, 44, 45 (and the same files at offset 0)
+    for n in (18, 19, 20):
+        au_file = b".snd" + b"".join(int(x).to_bytes(4, "big") for x in (24, n, 1, 8000, 1)) + bytes((0x80 + k) & 0xFF for k in range(n))
+        for (lead, cd) in [(1, 1), (1, 0), (0, 1)]:
+            name = "q%d" % k
+            k += 1
+            lines.append("gate %s route=fd mode=r cd=%d lead=%d trail=0 fmt=0 clen=%d major=3 declared=%d au=1 content=%s" % (name, cd, lead, 24 + n, 24 + n, au_file.hex()))
+            meta[name] = ("au-boundary-%d" % (24 + n + lead), "r", lead, 0x03)
     # the SD2 refusal looks only at the caller's SF_INFO
     for (mode, cd) in [("r", 0), ("r", 1), ("w", 0), ("w", 1), ("rw", 1)]:
         name = "q%d" % k
@@ -552,7 +577,7 @@ def stream_gate(ctx, consts, jobs):
             i, m = re.sub(r" off=-?\d+", "", i), re.sub(r" off=-?\d+", "", m)     # SF_EMBED_FILE_INFO.offset of a write handle: end of file, compared below
         if i != m:
             found = True
-            ctx.violation("gate-%s-%s-%s-lead%d" % (name, jn, mode, lead),
+            capped(ctx, "gate", "gate-%s-%s-%s-lead%d" % (name, jn, mode, lead),
                           "# C14 open gate / descriptor ownership: %s, mode %s, descriptor at offset %d\n# the library     : %s\n# Sf.Routes.openFd: %s\n"
                           "# (open= error, off/len = SFC_GET_EMBED_FILE_INFO, fdopen = descriptor open after sf_open_fd, fd = after sf_close, sent = a descriptor the library never saw)\n"
                           "--- case (run with: sfh routes)\n%s" % (jn, mode, lead, i, m, line[:100000]))
@@ -647,7 +672,7 @@ def stream_truncate(ctx, consts, alive):
         if r.startswith("fdemb") and "KF-C14-TRUNC-EMBED" in alive and same_calls and not same_bytes:
             continue            # class: SFC_FILE_TRUNCATE on an embedded write handle; signature: all calls succeed, bytes wrong
         found = True
-        ctx.violation("truncate-%s-%s" % (nm, r.replace(":", "_")),
+        capped(ctx, "truncate", "truncate-%s-%s" % (nm, r.replace(":", "_")),
                       "# C14 SFC_FILE_TRUNCATE must act the same on every route: %s, route %s\n# path: %s\n# here: %s\n--- script\n%s"
                       % (nm, r, " / ".join(ref)[:700], " / ".join(got)[:700], sd[key]))
     return found
@@ -659,12 +684,30 @@ def run(ctx):
     if getattr(ctx, "replay", None):
         text = open(ctx.replay).read()
         if "--- case" in text:
-            body = text.split("--- case", 1)[1].split("\n", 1)[1]
-            p = ctx.run_sfh(["routes"], body)
-            print(p.stdout)
-            mo = ctx.run_model(["routes"], body)
-            print(mo)
-            ctx.report(ctx.replay)      # a case file records a disagreement; it is re-displayed, the verdict needs the full run
+            body = "\n".join(l for l in text.split("--- case", 1)[1].split("\n")[1:] if l.startswith(("shim ", "gate ")))
+            p = ctx.run_sfh(["routes"], "consts\n" + body + "\n")
+            cm = re.search(r"consts (.*)", p.stdout)
+            consts = {kv.split("=")[0]: int(kv.split("=")[1]) for kv in cm.group(1).split()} if cm else {}
+            il = [norm_impl(l, consts) for l in p.stdout.split("\n") if l.startswith(("shim ", "gate "))]
+            ml = [l for l in ctx.run_model(["routes"], body + "\n").split("\n") if l.startswith(("shim ", "gate "))]
+            print("\n".join("impl : " + l[:600] for l in il))
+            print("\n".join("model: " + l[:600] for l in ml))
+            bad = p.returncode != 0
+            if len(il) == 2 and il[0].startswith("shim"):
+                # two routes over the same logical file: the property itself
+                def logical(line, case):
+                    lead = int(re.search(r" lead=(\d+)", case).group(1))
+                    f = shim_file(line)
+                    return f[2 * lead:] if f not in (None, "-") else f
+                cases = body.split("\n")
+                bad |= shim_mid(il[0]) != shim_mid(il[1]) or ("pipe" not in body and logical(il[0], cases[0]) != logical(il[1], cases[1]))
+            else:
+                strip = lambda x: re.sub(r" (len|off)=-?\d+", "", re.sub(r"open=E\d+", "open=noEmbedSupport", x)) if "open=noEmbedSupport" in "".join(ml) or " mode=w " in body else x
+                bad |= [strip(x) for x in il] != [strip(x) for x in ml]
+            if bad:
+                ctx.report(ctx.replay)
+            else:
+                print("replay: the routes agree / the model agrees on this tree (no violation)")
             return
         return ctx.replay_script(ctx.replay)
     quick = ctx.tier == "quick"
